@@ -638,7 +638,7 @@ def compare(case, obs, replies):
             if text is None or text.startswith('err:'):
                 return '%s: unit %s: model %s, implementation %s' % (where, name, entry[1:3], text)
             f, d = U.parse_base_format(text)
-            if not U.close(U.scale_value(entry[1]), f) or root_dict(entry[2]) != d:
+            if not U.close(U.scale_value(entry[1]), f) or not U.dims_close(root_dict(entry[2]), d):
                 return '%s: unit %s: model %s %s, implementation %s' % (where, name, entry[1], entry[2], text)
     return None
 
@@ -744,12 +744,12 @@ def oracle(case, obs):
                 fails.append({'key': key, 'detail': 'order %d: unit %s was loaded but get_base_units raises %s' % (k, name, text[4:])})
                 continue
             f, got = U.parse_base_format(text)
-            if not U.close(f, want.scale) or got != wantd:
+            if not U.close(f, want.scale) or not U.dims_close(got, wantd):   # pint prints 6 significant digits
                 key = 'si-meaning:base-units-no' if name in no_attr_dependents(defs) else 'si-meaning'
                 fails.append({'key': key, 'detail': 'order %d: unit %s expands to "%s", the specification says %s %s'
                                                     % (k, name, text, mpmath.nstr(want.scale, 15), wantd)})
                 continue
-            if name in seen and (not U.close(seen[name][0], f) or seen[name][1] != got):
+            if name in seen and (not U.close(seen[name][0], f) or not U.dims_close(seen[name][1], got)):
                 fails.append({'key': 'order-dependent', 'detail': 'unit %s: "%s" in order %d, %s in an earlier order'
                                                                   % (name, text, k, seen[name])})
             seen.setdefault(name, (f, got))
